@@ -388,6 +388,13 @@ func storeReadBack(r *core.Run) {
 		for i := 0; i < 6; i++ {
 			names = append(names, core.GenChainName(rng))
 		}
+		// two pairs of names in a proper-prefix relation: a scan "by path" for the shorter name must not see the longer one's keys
+		for i := 0; i < 2; i++ {
+			if len(names[i]) > 60 {
+				names[i] = names[i][:60]
+			}
+		}
+		names = append(names, names[0]+"x", names[1]+"-2")
 		mk := func() map[string]tripleRec {
 			out := map[string]tripleRec{}
 			for i := 0; i < 40; i++ {
@@ -431,6 +438,63 @@ func storeReadBack(r *core.Run) {
 			err, _ := core.Catch(func() error { out = pk.GetAllPacketReceipts(ctx); return nil })
 			return out, err
 		}, false)
+		// per-path reads: keeper scan and the two list queries, for every (source, destination) pair
+		for _, sName := range names {
+			for _, dName := range names {
+				sub := func(all map[string]tripleRec) map[string]tripleRec {
+					out := map[string]tripleRec{}
+					for k, t := range all {
+						if t.S == sName && t.D == dName {
+							out[k] = t
+						}
+					}
+					return out
+				}
+				comparePacketStates(r, cid, "GetAllPacketCommitmentsByPath", sub(comm), func() ([]packettypes.PacketState, error) {
+					var out []packettypes.PacketState
+					err, _ := core.Catch(func() error { out = pk.GetAllPacketCommitmentsByPath(ctx, sName, dName); return nil })
+					return out, err
+				}, true)
+				paged := func(which string) func() ([]packettypes.PacketState, error) {
+					return func() ([]packettypes.PacketState, error) {
+						var out []packettypes.PacketState
+						err, _ := core.Catch(func() error {
+							var next []byte
+							for page := 0; page < 100; page++ {
+								var got []*packettypes.PacketState
+								var pr *query.PageResponse
+								if which == "commitments" {
+									res, err := pk.PacketCommitments(sdk.WrapSDKContext(ctx), &packettypes.QueryPacketCommitmentsRequest{SrcChain: sName, DstChain: dName, Pagination: &query.PageRequest{Key: next, Limit: 5}})
+									if err != nil {
+										return err
+									}
+									got, pr = res.Commitments, res.Pagination
+								} else {
+									res, err := pk.PacketAcknowledgements(sdk.WrapSDKContext(ctx), &packettypes.QueryPacketAcknowledgementsRequest{SrcChain: sName, DstChain: dName, Pagination: &query.PageRequest{Key: next, Limit: 5}})
+									if err != nil {
+										return err
+									}
+									got, pr = res.Acknowledgements, res.Pagination
+								}
+								for _, g := range got {
+									out = append(out, *g)
+								}
+								if pr == nil || len(pr.NextKey) == 0 {
+									break
+								}
+								next = pr.NextKey
+							}
+							return nil
+						})
+						return out, err
+					}
+				}
+				if sName != dName {
+					comparePacketStates(r, cid, "Query/PacketCommitments", sub(comm), paged("commitments"), true)
+					comparePacketStates(r, cid, "Query/PacketAcknowledgements", sub(acks), paged("acks"), true)
+				}
+			}
+		}
 		var gotSeqs []packettypes.PacketSequence
 		if err, _ := core.Catch(func() error { gotSeqs = pk.GetAllPacketSendSeqs(ctx); return nil }); err != nil {
 			r.Violation(cid, "readback/GetAllPacketSendSeqs/panic", map[string]interface{}{"err": err.Error()})
